@@ -31,7 +31,7 @@ def mats(ctx, name, n, cplx=False, shape=()):
     return ctx.complexes(name, shape + (n, n)) if cplx else ctx.reals(name, shape + (n, n))
 
 
-@rcontract(P, "sl2_irrep_hom", instances=[dict(n=n) for n in (2, 3, 4)], thorough=[dict(n=5), dict(n=6)], timeout=60.0,
+@rcontract(P, "sl2_irrep_hom", instances=[dict(n=n) for n in (2, 3, 4, 5, 6, 7)], thorough=[dict(n=8), dict(n=9), dict(n=10)], timeout=60.0,
            functions=["geometry_tools/lie/core.py:sl2_irrep", "geometry_tools/lie/core.py:binom", "geometry_tools/utils/core.py:number"])
 def sl2_irrep_hom(ctx, n):
     A, B = mats(ctx, 'A', 2), mats(ctx, 'B', 2)
@@ -41,6 +41,55 @@ def sl2_irrep_hom(ctx, n):
     if n <= 4:
         dA = det(A, ctx)
         ctx.ensure_eq('determinant', det(rA, ctx), dA ** (n * (n - 1) // 2), tol=1e-6)
+
+
+@bounded(P, "sl2_irrep_high_dimensions", functions=["geometry_tools/lie/core.py:sl2_irrep", "geometry_tools/lie/core.py:binom"],
+         note="irreducible representations of dimension up to 14: integer matrices of determinant one (exactly representable products), homomorphism, identity, "
+              "exact integer determinant one, stacked input alike")
+def sl2_irrep_high_dimensions(tier, rng, rep):
+    N = 60 if tier == 'thorough' else 12
+    rep.rule = "n in 2..14; products of up to 5 elementary integer matrices [[1,k],[0,1]], [[1,0],[k,1]], k in -2..2 (determinant exactly one, small entries), single and stacked (shape (3,))"
+    rep.bound = f"{N} pairs x 13 dimensions"
+    def word():
+        M = np.identity(2)
+        for _ in range(int(rng.integers(1, 6))):
+            k = int(rng.integers(-2, 3))
+            E = np.array([[1., k], [0., 1.]]) if rng.random() < 0.5 else np.array([[1., 0.], [k, 1.]])
+            M = M @ E
+        return M
+    for t in range(N):
+        A, B = word(), word()
+        for n in range(2, 15):
+            inp = {"n": n, "A": A.tolist(), "B": B.tolist()}
+            def run():
+                rA, rB, rAB = (np.asarray(lie.sl2_irrep(X.copy(), n), dtype=float) for X in (A, B, A @ B))
+                scale = 1 + np.max(np.abs(rA)) * np.max(np.abs(rB))
+                if rA.shape != (n, n):
+                    rep.fail("shape", f"{rA.shape}", inp); return
+                if not np.all(np.abs(rAB - rA @ rB) <= 1e-9 * scale):
+                    rep.fail("multiplicative", f"n={n}: |rho(AB) - rho(A) rho(B)| = {np.max(np.abs(rAB - rA @ rB))}", inp)
+                if not np.all(np.abs(np.asarray(lie.sl2_irrep(np.identity(2), n), dtype=float) - np.identity(n)) <= 1e-12):
+                    rep.fail("identity", f"n={n}", inp)
+                # exact determinant by integer Bareiss elimination (entries are integers for integer A)
+                R = np.rint(rA)
+                if np.max(np.abs(rA)) * n >= 2.0 ** 50:      # not exactly representable: the determinant clause is decided by the contracts n <= 4 only
+                    return_det = False
+                else:
+                    return_det = True
+                if return_det and not np.all(np.abs(R - rA) <= 1e-6 * (1 + np.abs(rA))):
+                    rep.fail("integer_entries_for_integer_matrices", f"n={n}", inp); return
+                import sympy
+                d = sympy.Matrix(n, n, [int(x) for x in R.flatten()]).det() if return_det else 1
+                if d != 1:
+                    rep.fail("determinant_one", f"n={n}: det = {d}", inp)
+                S = np.stack([A, B, A @ B])
+                rS = np.asarray(lie.sl2_irrep(S.copy(), n), dtype=float)
+                if rS.shape != (3, n, n) or not np.all(np.abs(rS - np.stack([rA, rB, rAB])) <= 1e-9 * scale):
+                    rep.fail("arrays_of_matrices_alike", f"n={n}", inp)
+            rep.attempt("sl2_irrep_runs", inp, run)
+            rep.case(key=(t, n), nontrivial=n >= 5 and abs(A[0, 1] * A[1, 0]) > 0, sample=inp if (t, n) == (0, 5) else None)
+        if len(rep.failures) >= 3:
+            return
 
 
 @rcontract(P, "sl2_irrep_arrays", instances=[dict(n=3)], thorough=[dict(n=4)],
